@@ -232,6 +232,7 @@ inductive Op where
   | get (p : Path)
   | count
   | infos (token : Path) (size : Nat)
+  | info (p : Path)            -- GET /api/v1/streams/{path}: onGetStreamInfo → media.Get(path), Stream.Info (path, cc)
   | postIdle (i : Nat)         -- GetOrCreate's runZeroConsumersCloseTask(s, StreamNoConsumer)
   | probe (i : Nat)            -- inspect stream i: is its status StreamOK, how many unfinished tasks watch it
   deriving Repr, DecidableEq
@@ -242,6 +243,7 @@ inductive Obs where
   | cid (o : Option Nat)
   | cnt (sc : Nat) (cc : Int)
   | paths (total : Nat) (ps : List Path)
+  | sinfo (o : Option (Path × Int))      -- the stream found under the path: its own path and consumer count
   | tick (r : TickResult)
   | probe (ok : Bool) (pending : Nat)
   deriving Repr, DecidableEq
@@ -254,6 +256,12 @@ def isOk (st : State) (i : Nat) : Bool :=
   match st.streams[i]? with
   | some s => s.status = .ok
   | none => false
+
+/-- Stream.Path() of stream i -/
+def pathOf (st : State) (i : Nat) : Path :=
+  match st.streams[i]? with
+  | some s => s.path
+  | none => []
 
 def step (cfg : Cfg) (f : Facts) (st : State) : Op → State × Obs
   | .new p h => let (st', i) := newStream cfg st p h; (st', .sid (some i))
@@ -269,6 +277,7 @@ def step (cfg : Cfg) (f : Facts) (st : State) : Op → State × Obs
   | .get p => (st, .sid (get cfg f st p))
   | .count => let (a, b) := count f st; (st, .cnt a b)
   | .infos t n => let (a, b) := infos f st t n; (st, .paths a b)
+  | .info p => (st, .sinfo ((get cfg f st p).map (fun i => (pathOf st i, ccOf st i))))
   | .postIdle i => (postTask st i false, .unit)
   | .probe i => (st, .probe (isOk st i) (pendingTasks st i))
 
